@@ -60,6 +60,9 @@ pub struct Case {
 
 const NAMES: [&str; 8] = ["a.txt", "b.bin", "dir/c.txt", "deep/er/d.dat", "UPPER.TXT", "dots..name", "tilde~1", "plus+sign"];
 const EXTRA_NAMES: [&str; 4] = ["x-ext", "zzz", "Aaa", "_custom"];
+/// names that are fields of some other role type: unrecognised where they are injected
+const EXTRA_NAMES_META_ROLES: [&str; 5] = ["targets", "delegations", "keys", "roles", "consistent_snapshot"]; // for timestamp / snapshot
+const EXTRA_NAMES_TARGETS_ROLES: [&str; 4] = ["meta", "keys", "roles", "consistent_snapshot"]; // for targets and delegated roles
 
 fn extra_value(i: u8) -> Value {
     match i % 5 {
@@ -71,10 +74,11 @@ fn extra_value(i: u8) -> Value {
     }
 }
 
-fn extras(v: &[(u8, u8)]) -> Vec<(String, Value)> {
+fn extras(v: &[(u8, u8)], foreign: &[&str]) -> Vec<(String, Value)> {
     let mut out: Vec<(String, Value)> = Vec::new();
     for (n, x) in v {
-        let name = EXTRA_NAMES[*n as usize % EXTRA_NAMES.len()].to_string();
+        let i = *n as usize % (EXTRA_NAMES.len() + foreign.len());
+        let name = if i < EXTRA_NAMES.len() { EXTRA_NAMES[i].to_string() } else { foreign[i - EXTRA_NAMES.len()].to_string() };
         if !out.iter().any(|(k, _)| *k == name) {
             out.push((name, extra_value(*x)));
         }
@@ -113,10 +117,11 @@ fn forge_to_disk(f: &ForgeRepo) -> OnDisk {
         let parent = if parent > 0 && nodes[parent - 1].0 != 0 { 0 } else { parent }; // depth <= 2
         let prefix = if parent == 0 { format!("r{i}/") } else { format!("r{}/r{i}/", parent - 1) };
         let paths = if *hash { PathSpec::HashPrefixes(vec!["".into()]) } else { PathSpec::Paths(vec![format!("{prefix}*")]) };
-        let mut n = DelegNode::new(&format!("role{i}"), 4 + i, paths);
+        // (listed order is priority order and must survive an update: names are not alphabetical)
+        let mut n = DelegNode::new(["zeta", "alpha", "mid", "beta"][i % 4], 4 + i, paths);
         n.targets = mk_targets(&prefix, tg);
         n.version = 1 + i as u64;
-        n.extra = extras(&f.extra_deleg);
+        n.extra = extras(&f.extra_deleg, &EXTRA_NAMES_TARGETS_ROLES);
         nodes.push((parent, n));
     }
     // assemble (children before parents)
@@ -129,9 +134,9 @@ fn forge_to_disk(f: &ForgeRepo) -> OnDisk {
         }
     }
     s.delegs = built.into_iter().flatten().collect();
-    s.timestamp_extra = extras(&f.extra_ts);
-    s.snapshot_extra = extras(&f.extra_snap);
-    s.targets_extra = extras(&f.extra_targets);
+    s.timestamp_extra = extras(&f.extra_ts, &EXTRA_NAMES_META_ROLES);
+    s.snapshot_extra = extras(&f.extra_snap, &EXTRA_NAMES_META_ROLES);
+    s.targets_extra = extras(&f.extra_targets, &EXTRA_NAMES_TARGETS_ROLES);
     let custom = f.custom;
     let entry_extra = f.entry_extra;
     let b = s.build_full(
@@ -332,14 +337,16 @@ pub fn prop_with(case: &Case, known_snapshot: bool) -> Outcome {
     let new_docs = docs(&new_meta);
     o.nontrivial = true;
     // ---- compare
-    let std_fields = ["_type", "spec_version", "version", "expires", "meta", "targets", "delegations"];
+    let std_meta = ["_type", "spec_version", "version", "expires", "meta"];
+    let std_targets = ["_type", "spec_version", "version", "expires", "targets", "delegations"];
     for role in ["timestamp", "snapshot", "targets"] {
         let (Some(od), Some(nd)) = (old_docs.get(role), new_docs.get(role)) else {
             o.fail(format!("{role} document missing after the update"));
             return o;
         };
-        let oe = top_level_extra(&od["signed"], &std_fields);
-        let ne = top_level_extra(&nd["signed"], &std_fields);
+        let std_fields: &[&str] = if role == "targets" { &std_targets } else { &std_meta };
+        let oe = top_level_extra(&od["signed"], std_fields);
+        let ne = top_level_extra(&nd["signed"], std_fields);
         if !oe.is_empty() {
             o.label(format!("unknown-members:{role}"));
         }
@@ -439,7 +446,7 @@ pub fn prop_with(case: &Case, known_snapshot: bool) -> Outcome {
 }
 
 fn small() -> impl Strategy<Value = Vec<(u8, u8)>> {
-    prop::collection::vec((0u8..4, 0u8..5), 0..3)
+    prop::collection::vec((0u8..9, 0u8..5), 0..3)
 }
 
 fn forge_strategy() -> impl Strategy<Value = ForgeRepo> {
@@ -467,7 +474,7 @@ fn forge_strategy() -> impl Strategy<Value = ForgeRepo> {
 }
 
 fn case_strategy() -> impl Strategy<Value = Case> {
-    (case_strategy_lib(), prop::bool::weighted(0.2)).prop_map(|(mut c, cli)| {
+    (case_strategy_lib(), prop::bool::weighted(0.08)).prop_map(|(mut c, cli)| {
         c.via_cli = cli;
         c
     })
@@ -500,7 +507,7 @@ pub fn check(ctx: &Ctx) -> Vec<PartReport> {
                 ("unknown-members:targets", n as u64 / 5),
                 ("custom-data", n as u64 / 5),
                 ("base:edited", n as u64 / 10),
-                ("via:tuftool-update", n as u64 / 10),
+                ("via:tuftool-update", n as u64 / 30),
             ],
         },
     )]
